@@ -39,11 +39,13 @@ PROP = {'gen': [],
                'automata regenerated from the source, one checked Gallina function per Matcher::decode body): for every byte string and '
                'every partition into reads no payload decoder panics on any string the automaton accepts (three shape certificates - '
                'lengths, XTWINOPS pieces, XTGETTCAP hex fields - checked by reflection on the regenerated tables), the loops terminate, an '
-               'exhausted decoder returns None, Utf8Decoder never overruns its buffer; characters are scalar '
-               'values, numeric fields are the unbounded decimal values of their digits or the sequence is unrecognised, raw events are '
+               'exhausted decoder returns None (also stated for the run in which a panicking payload decoder aborts at the byte where it is '
+               'called), Utf8Decoder never overruns its buffer and is chunking independent; sgr_face / sgr_color modelled in full; characters are scalar '
+               'values, numeric fields are the unbounded decimal values of their digits clamped to usize::MAX (minus one where one-based; a zero there makes the sequence unrecognised), raw events are '
                'non-empty and spans reassemble the input in order.',
  'level_note': 'Trusted: Coq kernel + vm_compute; hand-written payload models validated by the correspondence run; DFA dump hook + '
-               'translate/dfa.py; sgr_face / sgr_color (C06), RGBA::from_str, String::from_utf8_lossy treated as total opaque functions. '
+               'translate/dfa.py (automata, matcher order, DecMode lists, palette tables); RGBA::from_str, String::from_utf8_lossy, '
+               'FaceModify::apply / FaceAttrs of a DECRPSS reply treated as total opaque functions. '
                'No axioms.',
  'technique': 'Coq proof (generic tokeniser theorems of C03 + per-decoder totality lemmas + reflection certificates over the regenerated '
               'automata) + model/implementation correspondence with crash observation in a child process',
@@ -57,8 +59,10 @@ PROP = {'gen': [],
                   'Utf8Decoder), tied to the code by the correspondence run',
                   'verif-hooks dump of the compiled automata and translate/dfa.py (Gen/ProdDFA.v: tables, matcher order, DecMode code '
                   'lists)',
-                  'opaque total functions: sgr_face / sgr_color (modelled under C06), rasterize RGBA::from_str, String::from_utf8_lossy',
+                  'opaque total functions: rasterize RGBA::from_str, String::from_utf8_lossy, FaceModify::apply / FaceAttrs (only the colours '
+                  'of FaceGet are modelled)',
                   HARNESS],
  'assumptions': ['the BufRead handed to decode exposes all bytes of the read in one fill_buf (Cursor, &[u8])',
                  '64-bit target: usize = u64',
-                 'sgr_face is total (its partial operations are table indexings guarded by range patterns)']}
+                 'kitty keyboard modifiers are a bit set: KeyMod::from_bits keeps the nine known bits of (m - 1) by design (a mask, not a '
+                 'wrapped numeric field)']}
